@@ -120,6 +120,10 @@ func (c *Conn) ev(e Event) {
 // connection between local and remote.
 func MkErr(kind, op string, local, remote net.Addr) error {
 	wrap := func(inner error) error {
+		if op == "set" {
+			// the net package reports deadline errors with the local address only
+			return &net.OpError{Op: op, Net: "tcp", Source: nil, Addr: local, Err: inner}
+		}
 		return &net.OpError{Op: op, Net: "tcp", Source: local, Addr: remote, Err: inner}
 	}
 	sys := func(e syscall.Errno) error { return wrap(os.NewSyscallError(op, e)) }
